@@ -95,12 +95,13 @@ def metadata_unit(plan):
         opexpr = "symdiff(lhs_ptr.set.view(), rhs_ptr.set.view())" if spec_op == "symdiff" else "lhs_ptr.set.view().%s(rhs_ptr.set.view())" % spec_op
         fn = "solve_%s" % op
         items.append("""fn %s(out_ptr: &mut MechSet, lhs_ptr: &MechSet, rhs_ptr: &MechSet)
-  requires lhs_ptr.wf(), rhs_ptr.wf(),
-    // operands of one and the same element kind (or empty)
-    forall|a: int, b: int| lhs_ptr.set.view().contains(a) && rhs_ptr.set.view().contains(b) ==> kind_of(a) == kind_of(b),
+  requires lhs_ptr.set.view().finite(), rhs_ptr.set.view().finite(),
   ensures
+    // the algebra: whatever the recorded kinds of the operands say (for sets of sets the recorded kind carries the inner size, so two sets of sets can
+    // share elements although their `kind` fields differ), the result holds exactly the elements the mathematical operation defines
     final(out_ptr).set.view() == %s,
-    final(out_ptr).wf(),
+    // the metadata: for well-formed operands of one and the same element kind (or empty) the result is well-formed
+    (lhs_ptr.wf() && rhs_ptr.wf() && (forall|a: int, b: int| lhs_ptr.set.view().contains(a) && rhs_ptr.set.view().contains(b) ==> kind_of(a) == kind_of(b))) ==> final(out_ptr).wf(),
 {
   %s
 }
